@@ -28,6 +28,8 @@ API
                                                died just before event n" == the state seen inside the callback).
                                                The callback may block (cooperative scheduler), raise (abort the
                                                operation) or kill the process.
+    tap.on_done = fn(n, kind, result)          optional, called right AFTER the operation of pre-event n completed (same
+                                               thread, outside the lock); tap.completed = [n, ...] in completion order
     tap.events                                 ordered log [(n, thread-index, kind, name, nbytes)]
     tap.pause() / tap.resume() / with tap.muted():   global / per-thread switch (no events, plain passthrough)
     tap.open_states(under=None)                FileState objects of files currently open for writing
@@ -137,7 +139,7 @@ class FileProxy(object):
                     st.nwrites += 1
             return n
         data = bytes(b)
-        tap._emit("write", self._st.path if self._st else self._path, len(data), len(data))
+        ev = tap._emit("write", self._st.path if self._st else self._path, len(data), len(data))
         f = self._f
         st = self._st
         pos = f.tell() if st is not None else 0
@@ -154,6 +156,7 @@ class FileProxy(object):
                 st.ops.append(("w", pos, data))
                 st.total += len(data)
                 st.nwrites += 1
+        tap._done(ev, "write")
         return len(data)
 
     def writelines(self, lines):
@@ -161,36 +164,39 @@ class FileProxy(object):
             self.write(ln)
 
     def flush(self):
-        self._tap._emit("flush", self._st.path if self._st else self._path)
+        ev = self._tap._emit("flush", self._st.path if self._st else self._path)
         r = self._f.flush()
         st = self._st
         if st is not None:
             st.flushed = st.total
+        self._tap._done(ev, "flush")
         return r
 
     def seek(self, *a):
-        self._tap._emit("seek", self._st.path if self._st else self._path, 0, a)
+        ev = self._tap._emit("seek", self._st.path if self._st else self._path, 0, a)
         r = self._f.seek(*a)
         st = self._st
         if st is not None and self._tap.seek_flushes:
             st.flushed = st.total
+        self._tap._done(ev, "seek")
         return r
 
     def truncate(self, *a):
-        self._tap._emit("truncate", self._st.path if self._st else self._path, 0, a)
+        ev = self._tap._emit("truncate", self._st.path if self._st else self._path, 0, a)
         r = self._f.truncate(*a)
         st = self._st
         if st is not None:
             with self._tap._lock:
                 st.ops.append(("t", r if r is not None else self._f.tell(), b""))
                 st.flushed = st.total
+        self._tap._done(ev, "truncate")
         return r
 
     def close(self):
         if self._f.closed:
             return None
         tap = self._tap
-        tap._emit("close", self._st.path if self._st else self._path)
+        ev = tap._emit("close", self._st.path if self._st else self._path)
         r = self._f.close()
         st = self._st
         if st is not None:
@@ -199,7 +205,27 @@ class FileProxy(object):
                 st.closed = True
                 if tap._open.get(st.path) is st:
                     del tap._open[st.path]
+        tap._done(ev, "close")
         return r
+
+    def __del__(self):
+        # CPython closes (and thereby flushes) a dropped file object at once; mirror that silently (no event:
+        # a finalizer must never block in a scheduler callback) so that the crash model stays faithful.
+        try:
+            f = self.__dict__.get("_f")
+            st = self.__dict__.get("_st")
+            if f is not None and not f.closed:
+                f.close()
+                if st is not None and not st.closed:
+                    tap = self._tap
+                    with tap._lock:
+                        st.flushed = st.total
+                        st.closed = True
+                        if tap._open.get(st.path) is st:
+                            del tap._open[st.path]
+                    tap.gc_closed += 1
+        except Exception:  # noqa
+            pass
 
     # -- passthrough ----------------------------------------------------
     def __getattr__(self, a):
@@ -258,46 +284,58 @@ class OsProxy(object):
 
     def remove(self, p):
         tap = self._tap
-        tap._emit("remove", p)
+        ev = tap._emit("remove", p)
         r = os.remove(p)
         tap._forget(p)
+        tap._done(ev, "remove")
         return r
 
     unlink = remove
 
     def rename(self, a, b):
         tap = self._tap
-        tap._emit("rename", b, 0, tap._rel(a))
+        ev = tap._emit("rename", b, 0, tap._rel(a))
         r = os.rename(a, b)
         tap._moved(a, b)
+        tap._done(ev, "rename")
         return r
 
     def replace(self, a, b):
         tap = self._tap
-        tap._emit("rename", b, 0, tap._rel(a))
+        ev = tap._emit("rename", b, 0, tap._rel(a))
         r = os.replace(a, b)
         tap._moved(a, b)
+        tap._done(ev, "rename")
         return r
 
     def rmdir(self, p):
-        self._tap._emit("rmdir", p)
-        return os.rmdir(p)
+        ev = self._tap._emit("rmdir", p)
+        r = os.rmdir(p)
+        self._tap._done(ev, "rmdir")
+        return r
 
     def mkdir(self, p, *a, **k):
-        self._tap._emit("mkdir", p)
-        return os.mkdir(p, *a, **k)
+        ev = self._tap._emit("mkdir", p)
+        r = os.mkdir(p, *a, **k)
+        self._tap._done(ev, "mkdir")
+        return r
 
     def makedirs(self, p, *a, **k):
         # only an event (and a mutation) when something will be created
         if os.path.isdir(p):
-            self._tap._emit("stat", p)
+            ev, kind = self._tap._emit("stat", p), "stat"
         else:
-            self._tap._emit("makedirs", p)
-        return os.makedirs(p, *a, **k)
+            ev, kind = self._tap._emit("makedirs", p), "makedirs"
+        try:
+            return os.makedirs(p, *a, **k)
+        finally:
+            self._tap._done(ev, kind)
 
     def listdir(self, p="."):
-        self._tap._emit("listdir", p)
-        return os.listdir(p)
+        ev = self._tap._emit("listdir", p)
+        r = os.listdir(p)
+        self._tap._done(ev, "listdir", r)
+        return r
 
     def open(self, p, flags, *a, **k):
         tap = self._tap
@@ -383,6 +421,9 @@ class Tap(object):
         self.keep_events = keep_events
         self.seek_flushes = seek_flushes
         self.on_event = None
+        self.on_done = None
+        self.gc_closed = 0        # write handles that were dropped without close() (closed by the finalizer)
+        self.completed = []
         self.events = []
         self.n = 0
         self.enabled = True
@@ -458,6 +499,7 @@ class Tap(object):
     def reset_log(self):
         with self._lock:
             self.events = []
+            self.completed = []
             self.n = 0
             self.kind_counts = {}
 
@@ -509,15 +551,34 @@ class Tap(object):
             cb(n, kind, name, detail)
         return n
 
+    def _done(self, n, kind, result=None):
+        """Post-operation notification for pre-operation event n (completion order can differ from emission
+        order when a scheduler parks threads inside on_event)."""
+        if n is None:
+            return
+        with self._lock:
+            if self.keep_events:
+                self.completed.append(n)
+        cb = self.on_done
+        if cb is not None:
+            cb(n, kind, result)
+
     # ------------------------------------------------------------------
     def _tapped_open(self, path, mode="r", *a, **k):
         if self._passthrough(path):
             return builtins.open(path, mode, *a, **k)
         if not _is_write_mode(mode):
-            self._emit("open-r", path, 0, mode)
-            return builtins.open(path, mode, *a, **k)
-        self._emit("create" if ("w" in mode or "x" in mode) else "open-rw", path, 0, mode)
-        return self._wrap_write(path, mode, lambda buffering: builtins.open(path, mode, buffering))
+            ev = self._emit("open-r", path, 0, mode)
+            try:
+                return builtins.open(path, mode, *a, **k)
+            finally:
+                self._done(ev, "open-r")
+        kind = "create" if ("w" in mode or "x" in mode) else "open-rw"
+        ev = self._emit(kind, path, 0, mode)
+        try:
+            return self._wrap_write(path, mode, lambda buffering: builtins.open(path, mode, buffering))
+        finally:
+            self._done(ev, kind)
 
     def _wrap_write(self, path, mode, opener):
         ap = os.path.abspath(path)
